@@ -75,6 +75,10 @@ class FuncInfo(object):
             return "staticmethod"
         if "cached_property" in self.decorators or "property" in self.decorators:
             return "property"
+        if self.owner is not None and getattr(self, "descriptor_kinds", None):
+            # decorated with a descriptor class of the code base that computes the value on access -- from the instance, or
+            # (classproperty) from the class, whether asked on the class or on an instance
+            return "classproperty" if self.descriptor_kinds[0][1].startswith("class-level") else "property"
         return "method" if self.owner is not None else "function"
 
     def where(self) -> str:
@@ -155,6 +159,98 @@ class Module(object):
 # ---------------------------------------------------------------------------
 
 
+def descriptor_kind(p, ci: "ClassInfo") -> Optional[str]:
+    """How a descriptor class of the code base used as a method decorator keeps what the method computes, read off its
+    __get__:  'name-keyed-instance' (stored in the instance's __dict__ / by setattr under the attribute's name, like
+    functools.cached_property: one value per (name, instance)), 'per-descriptor-instance' (a table on the descriptor keyed
+    by the instance), 'uncached-instance' (computed on every access, like property), 'shared' (one slot on the descriptor or
+    the class for all instances); None when __get__ is not of a recognised shape."""
+    _, get = p.class_attr_def(ci, "__get__")
+    if not isinstance(get, FuncInfo):
+        return None
+    if any(isinstance(p.class_attr_def(ci, n)[1], FuncInfo) for n in ("__set__", "__delete__")):
+        return None
+    ga = [a.arg for a in get.node.args.posonlyargs + get.node.args.args]
+    if len(ga) < 2:
+        return None
+    me, inst = ga[0], ga[1]
+    owner = ga[2] if len(ga) > 2 else None
+    # the attribute(s) the constructor keeps the decorated function in; a subclass's constructor may hand it on to its
+    # base's (super().__init__(getter))
+    getter_attrs = set()
+    for c in p.mro(ci):
+        init = c.attrs.get("__init__") if isinstance(c, ClassInfo) else None
+        if not isinstance(init, FuncInfo):
+            continue
+        ia = [a.arg for a in init.node.args.posonlyargs + init.node.args.args]
+        if len(ia) < 2:
+            return None
+        me_i, fparam = ia[0], ia[1]
+        getter_attrs |= {t.attr for n in ast.walk(init.node) if isinstance(n, ast.Assign) and isinstance(n.value, ast.Name) and n.value.id == fparam
+                         for t in n.targets if isinstance(t, ast.Attribute) and isinstance(t.value, ast.Name) and t.value.id == me_i}
+        hands_on = any(isinstance(n, ast.Call) and isinstance(n.func, ast.Attribute) and n.func.attr == "__init__" and any(
+            isinstance(a, ast.Name) and a.id == fparam for a in n.args) for n in ast.walk(init.node))
+        if not hands_on:
+            break
+    if not getter_attrs:
+        return None
+
+    def is_compute(c):
+        return (isinstance(c, ast.Call) and isinstance(c.func, ast.Attribute) and c.func.attr in getter_attrs
+                and isinstance(c.func.value, ast.Name) and c.func.value.id == me)
+
+    computes = [c for c in ast.walk(get.node) if is_compute(c)]
+    if not computes or not all(len(c.args) == 1 and not c.keywords and isinstance(c.args[0], ast.Name) for c in computes):
+        return None
+    given = {c.args[0].id for c in computes}
+    if given == {owner}:
+        # computed from the class: kept nowhere (classproperty), or kept on the class for later reads
+        keeps = [n for n in ast.walk(get.node) if (isinstance(n, ast.Call) and isinstance(n.func, ast.Name) and n.func.id == "setattr" and n.args
+                                                    and isinstance(n.args[0], ast.Name) and n.args[0].id == owner)
+                 or (isinstance(n, ast.Assign) and any(isinstance(t, ast.Attribute) and isinstance(t.value, ast.Name) and t.value.id == owner for t in n.targets))]
+        other = [n for n in ast.walk(get.node) if isinstance(n, (ast.Assign, ast.AugAssign)) and n not in keeps
+                 and any(not isinstance(t, ast.Name) for t in (n.targets if isinstance(n, ast.Assign) else [n.target]))]
+        if other:
+            return None
+        return "class-level-cached" if keeps else "class-level"
+    if given != {inst}:
+        return None
+
+    def is_inst_dict(e):
+        return (isinstance(e, ast.Attribute) and e.attr == "__dict__" and isinstance(e.value, ast.Name) and e.value.id == inst) or (
+            isinstance(e, ast.Call) and isinstance(e.func, ast.Name) and e.func.id == "vars" and len(e.args) == 1
+            and isinstance(e.args[0], ast.Name) and e.args[0].id == inst)
+
+    kinds = set()
+    for n in ast.walk(get.node):
+        tgts = n.targets if isinstance(n, ast.Assign) else [n.target] if isinstance(n, (ast.AugAssign, ast.AnnAssign)) else []
+        for t in tgts:
+            if isinstance(t, ast.Name):
+                continue
+            if isinstance(t, ast.Subscript) and is_inst_dict(t.value):
+                kinds.add("name-keyed-instance")
+            elif isinstance(t, ast.Subscript) and isinstance(t.value, ast.Attribute) and isinstance(t.value.value, ast.Name) and t.value.value.id == me \
+                    and isinstance(t.slice, ast.Name) and t.slice.id == inst:
+                kinds.add("per-descriptor-instance")
+            elif isinstance(t, ast.Attribute) and isinstance(t.value, ast.Name) and t.value.id in (me, owner):
+                kinds.add("shared")
+            else:
+                return None
+        if isinstance(n, ast.Call) and isinstance(n.func, ast.Name) and n.func.id == "setattr" and n.args:
+            if isinstance(n.args[0], ast.Name) and n.args[0].id == inst:
+                kinds.add("name-keyed-instance")
+            else:
+                return None
+        if isinstance(n, ast.Call) and isinstance(n.func, ast.Attribute) and n.func.attr in ("setdefault", "update", "__setitem__"):
+            if is_inst_dict(n.func.value):
+                kinds.add("name-keyed-instance")
+            else:
+                return None
+    if not kinds:
+        return "uncached-instance"
+    return kinds.pop() if len(kinds) == 1 else None
+
+
 class Program(object):
     def __init__(self, root: Optional[str] = None):
         self.root = root or repo_root()
@@ -167,6 +263,26 @@ class Program(object):
             self._bind_imports(m)
         for m in self.modules.values():
             self._resolve_bases(m)
+        self._classify_descriptors()
+
+    def _classify_descriptors(self):
+        """methods decorated with a descriptor class of the code base: how that class keeps the value (descriptor_kind)"""
+        for m in self.modules.values():
+            for ci in m.classes.values():
+                for raw in ci.attrs.values():
+                    if not isinstance(raw, FuncInfo) or len(raw.node.decorator_list) != 1:
+                        continue
+                    d = raw.node.decorator_list[0]
+                    if isinstance(d, ast.Call):
+                        continue
+                    try:
+                        dv = self.resolve_expr(m, d)
+                    except Exception:
+                        continue
+                    if isinstance(dv, ClassInfo):
+                        k = descriptor_kind(self, dv)
+                        if k in ("name-keyed-instance", "per-descriptor-instance", "uncached-instance", "class-level", "class-level-cached"):
+                            raw.descriptor_kinds = [(dv.qualname, k)]
 
     # -- discovery ----------------------------------------------------------
 
@@ -382,6 +498,13 @@ class Program(object):
                     a = m.classes[rest[0]].attrs.get(rest[1])
                     if isinstance(a, FuncInfo):
                         return a
+                    # the method as the class resolves it (moved to a mixin / a base class of the repository)
+                    try:
+                        _, a = self.class_attr_def(m.classes[rest[0]], rest[1])
+                    except Exception:
+                        a = None
+                    if isinstance(a, FuncInfo):
+                        return a
                 break
         # private functions addressed by the name they have on the pinned tree: found by role when renamed or moved
         from . import roles
@@ -462,6 +585,9 @@ class Program(object):
         ci.bases = list(bases)
         ci.attrs = {k: (v if isinstance(v, (FuncInfo, ast.AST, Const)) else Const(v)) for k, v in attrs.items()}
         ci.synthetic = True
+        hook = getattr(self, "_class_hook", None)
+        if hook is not None:
+            hook(ci)  # a class created for the analysis is created like any other: the creation hooks of its bases run
         return ci
 
 
